@@ -297,7 +297,7 @@ func mustHashed(fn *ssa.Function, writes []ssa.CallInstruction, k string) (bool,
 			continue
 		}
 		// unconditional?
-		t, _ := PathAvoiding(fn, fn.Blocks[0].Instrs[0], func(in ssa.Instruction) bool { return in == sum }, func(in ssa.Instruction) bool { return in == ssa.Instruction(w) }, nil)
+		t, _ := PathAvoiding(fn, nil, func(in ssa.Instruction) bool { return in == sum }, func(in ssa.Instruction) bool { return in == ssa.Instruction(w) }, nil)
 		if t == nil {
 			return true, ""
 		}
